@@ -5,6 +5,7 @@ import (
 	"time"
 	"context"
 	"bytes"
+	"io"
 	"os"
 	"os/exec"
 	"path/filepath"
@@ -37,10 +38,63 @@ type cliRes struct {
 }
 
 // runCLI runs the gtree binary. stdoutMode: "" pipe, "closed", "devfull".
+// c16Stdin gives the child its standard input as one of four kinds of descriptor, in rotation:
+// a pipe, a regular file at offset 0, a regular file of which an earlier reader has consumed a
+// header line (the document starts at the descriptor's CURRENT offset), a socket. What the CLI
+// reads from descriptor 0 is the same document every time, so its behaviour must be the same
+// (commands that name /dev/stdin as a FILE are left on the pipe: re-opening is their business).
+var c16StdinSeq int
+
+func c16Stdin(c *Ctx, cmd *exec.Cmd, stdin []byte, args []string) (cleanup func()) {
+	cleanup = func() {}
+	cmd.Stdin = bytes.NewReader(stdin)
+	for _, a := range args {
+		if strings.Contains(a, "/dev/stdin") || strings.Contains(a, "/dev/fd/") || strings.Contains(a, "/proc/self/fd") {
+			return
+		}
+	}
+	c16StdinSeq++
+	kind := c16StdinSeq % 4
+	c.Count("cli_stdin."+[]string{"pipe", "regular-file", "regular-file-at-an-offset", "socket"}[kind], 1)
+	switch kind {
+	case 1, 2:
+		f, err := os.CreateTemp(c.TmpDir, "stdin")
+		if err != nil {
+			return
+		}
+		os.Remove(f.Name())
+		header := ""
+		if kind == 2 {
+			header = "# a header line that an earlier reader of this descriptor has consumed\n- and-a-root\n"
+		}
+		f.WriteString(header)
+		f.Write(stdin)
+		f.Seek(int64(len(header)), io.SeekStart)
+		cmd.Stdin = f
+		cleanup = func() { f.Close() }
+	case 3:
+		fds, err := syscall.Socketpair(syscall.AF_UNIX, syscall.SOCK_STREAM|syscall.SOCK_CLOEXEC, 0)
+		if err != nil {
+			return
+		}
+		child, parent := os.NewFile(uintptr(fds[0]), "stdin-socket"), os.NewFile(uintptr(fds[1]), "stdin-socket-peer")
+		cmd.Stdin = child
+		done := make(chan struct{})
+		go func() {
+			defer close(done)
+			parent.Write(stdin)
+			parent.Close()
+		}()
+		cleanup = func() { child.Close(); parent.Close(); <-done }
+	}
+	return
+}
+
 func runCLI(c *Ctx, cwd string, stdin []byte, stdoutMode string, args ...string) cliRes {
 	cmd := exec.Command(filepath.Join(c.BinDir, "gtree"), args...)
 	cmd.Dir = cwd
-	cmd.Stdin = bytes.NewReader(stdin)
+	cleanupStdin := c16Stdin(c, cmd, stdin, args)
+	defer func() { cleanupStdin() }()
 	var so, se bytes.Buffer
 	cmd.Stderr = &se
 	var devfull *os.File
@@ -51,7 +105,8 @@ func runCLI(c *Ctx, cwd string, stdin []byte, stdoutMode string, args ...string)
 		shArgs := append([]string{"-c", `exec "$0" "$@" >&-`, filepath.Join(c.BinDir, "gtree")}, args...)
 		cmd = exec.Command("/bin/sh", shArgs...)
 		cmd.Dir = cwd
-		cmd.Stdin = bytes.NewReader(stdin)
+		cleanupStdin()
+		cleanupStdin = c16Stdin(c, cmd, stdin, args)
 		cmd.Stderr = &se
 	case "devfull":
 		devfull, _ = os.OpenFile("/dev/full", os.O_WRONLY, 0)
@@ -111,6 +166,9 @@ func runC16(c *Ctx) bool {
 	}
 	emit(&Case{Kind: "template"})
 	emit(&Case{Kind: "usage"})
+	for _, format := range []string{"", "json"} {
+		emit(&Case{Kind: "watch", Opt: map[string]string{"format": format}})
+	}
 	nDocs := c.Pick(150, 3000)
 	for j := 0; j < nDocs; j++ {
 		r := gen.New(c.Seed, 1601, uint64(j))
@@ -180,6 +238,9 @@ func evalC16(c *Ctx, cs *Case) {
 	switch cs.Kind {
 	case "template":
 		c16Template(c, cs)
+		return
+	case "watch":
+		c16Watch(c, cs)
 		return
 	case "usage":
 		c16Usage(c, cs)
@@ -844,4 +905,133 @@ func copyFile(src, dst string) error {
 		return err
 	}
 	return os.WriteFile(dst, b, 0o755)
+}
+
+
+// c16Watch: "gtree output --watch -f FILE" prints the tree again whenever the file changes. The
+// file is changed three ways - rewritten in place, replaced by a rename (an editor's safe save,
+// sed -i, git checkout), rewritten in place again - and after each change the next thing the
+// process prints must be what the library makes of the file's NEW content. The verdict is about
+// content only: if nothing arrives within a generous limit the step is inconclusive.
+func c16Watch(c *Ctx, cs *Case) {
+	dir, err := os.MkdirTemp(c.TmpDir, "watch")
+	if err != nil {
+		return
+	}
+	defer os.RemoveAll(dir)
+	file := filepath.Join(dir, "tree.md")
+	docs := []string{"- first\n  - a\n  - b\n", "- second\n  - c\n    - d\n- other-root\n", "- third\n  - e\n", "- fourth\n  - f\n  - g\n    - h\n"}
+	var opts []gtree.Option
+	args := []string{"output", "--watch", "-f", file}
+	if cs.Opt["format"] == "json" {
+		opts = append(opts, gtree.WithEncodeJSON())
+		args = append(args, "--format", "json")
+	}
+	want := func(doc string) string {
+		var b bytes.Buffer
+		gtree.OutputFromMarkdown(&b, strings.NewReader(doc), opts...)
+		return b.String() + "\n" // the watch loop prints an empty line after every tree
+	}
+	stamp := time.Now().Add(-time.Hour)
+	write := func(i int, byRename bool) {
+		stamp = stamp.Add(3 * time.Second)
+		if byRename {
+			tmp := file + ".new"
+			os.WriteFile(tmp, []byte(docs[i]), 0o644)
+			os.Chtimes(tmp, stamp, stamp)
+			os.Rename(tmp, file)
+			return
+		}
+		os.WriteFile(file, []byte(docs[i]), 0o644)
+		os.Chtimes(file, stamp, stamp)
+	}
+	write(0, false)
+	cmd := exec.Command(filepath.Join(c.BinDir, "gtree"), args...)
+	cmd.Env = append(os.Environ(), "NO_COLOR=1")
+	out, err := cmd.StdoutPipe()
+	if err != nil || cmd.Start() != nil {
+		c.Inconclusive(cs, "cannot start the watching process")
+		return
+	}
+	defer func() { cmd.Process.Kill(); cmd.Wait() }()
+	chunks := make(chan []byte, 64)
+	go func() {
+		defer close(chunks)
+		buf := make([]byte, 65536)
+		for {
+			n, err := out.Read(buf)
+			if n > 0 {
+				chunks <- append([]byte(nil), buf[:n]...)
+			}
+			if err != nil {
+				return
+			}
+		}
+	}()
+	// gather reads what the process prints until it has been silent for the given time; with
+	// first set it waits (up to a generous limit) for the first byte before that
+	gather := func(first bool, silence time.Duration) (string, bool) {
+		var got []byte
+		if first {
+			select {
+			case b, ok := <-chunks:
+				if !ok {
+					return "", false
+				}
+				got = append(got, b...)
+			case <-time.After(30 * time.Second):
+				return "", false
+			}
+		}
+		for {
+			select {
+			case b, ok := <-chunks:
+				if !ok {
+					return string(got), true
+				}
+				got = append(got, b...)
+			case <-time.After(silence):
+				return string(got), true
+			}
+		}
+	}
+	touch := func() {
+		stamp = stamp.Add(3 * time.Second)
+		os.Chtimes(file, stamp, stamp)
+	}
+	cs.Entry = "output --watch" + map[string]string{"": "", "json": " --format json"}[cs.Opt["format"]]
+	steps := []struct {
+		doc      int
+		byRename bool
+		how      string
+	}{{0, false, "initial content"}, {1, false, "rewritten in place"}, {2, true, "replaced by a rename"}, {3, false, "rewritten in place after the rename"}}
+	for si, st := range steps {
+		if si > 0 {
+			write(st.doc, st.byRename)
+		}
+		// whatever the process printed while the file was being changed is not judged (a poll may
+		// fall between the truncation and the write); once it is quiet the file is stable, its
+		// modification time is moved once more, and the refresh THAT causes is judged. A wrong
+		// refresh is offered two more chances, so that a delayed earlier one cannot be mistaken for it.
+		gather(si == 0, 1200*time.Millisecond)
+		w := want(docs[st.doc])
+		var shown []string
+		ok := false
+		for try := 0; try < 3 && !ok; try++ {
+			touch()
+			got, any := gather(true, 800*time.Millisecond)
+			if !any {
+				c.Inconclusive(cs, "the watching process printed nothing within the limit after the file (stable, "+st.how+") got a new modification time")
+				return
+			}
+			shown = append(shown, trunc(got, 300))
+			ok = got == w
+		}
+		c.Eval(gen.HashString("watch"+cs.Opt["format"]+strconv.Itoa(si)), true)
+		c.Count("watch_refreshes_judged", 1)
+		if !ok {
+			c.Violation(cs, "cli.watch-shows-other-than-the-file", st.how, map[string]any{"step": si, "file_now": docs[st.doc], "printed_after_each_of_three_touches": shown, "want": trunc(w, 600)})
+			return
+		}
+	}
 }
